@@ -18,6 +18,8 @@ import (
 	"io/ioutil"
 	stdlog "log"
 	"net"
+	"regexp"
+	"strings"
 	"sync"
 	"testing"
 	"time"
@@ -137,4 +139,110 @@ func vC09Concurrent(t *testing.T, res *vs.Result, reg *vC09Registry, rounds int)
 		res.Distinct(fmt.Sprintf("concurrent|%d clients", len(cs)))
 	}
 	res.Count("concurrent_rounds", rounds)
+}
+
+// vC09ConcurrentTenants: several accounts, each with its genuine on-chain
+// certificate, request lease status, service status and log streams of their
+// OWN leases at the same time on one gateway (the lease numbers overlap: all
+// of them have a lease 1/1/1).  Every stub marks what it returns with the
+// lease id it was asked about (owner from the authentication, numbers from
+// the URL), so each client can tell from its response whose lease it was
+// derived from: it must be its own, whatever the others are doing.
+func vC09ConcurrentTenants(t *testing.T, res *vs.Result, reg *vC09Registry, rounds int) {
+	pcert := testutil.Certificate(t, reg.Provider, testutil.CertificateOptionDomains([]string{"localhost", "127.0.0.1"}))
+	srv, err := vC09StartServer(t, reg, pcert.Cert)
+	if err != nil {
+		res.Inconclusive("multi-tenant phase: cannot start the gateway: " + err.Error())
+		return
+	}
+	defer srv.close()
+	var routes []vC09Route
+	for _, rt := range vC09Routes {
+		if rt.Name == "lease-status" || rt.Name == "service-status" || rt.Name == "logs-ws" {
+			routes = append(routes, rt)
+		}
+	}
+	if len(routes) != 3 || len(reg.Accts) < 2 {
+		res.Inconclusive("multi-tenant phase: routes or accounts missing")
+		return
+	}
+	seed := vs.Seed()
+	re := regexp.MustCompile(`verif-lease-tag:([a-z0-9]+)/(\d+)/(\d+)/(\d+)/([a-z0-9]+);`)
+	type job struct {
+		acct  *vC09Acct
+		route vC09Route
+		d     uint64
+		g, o  uint32
+		obs   vC09Obs
+	}
+	for round := 0; round < rounds; round++ {
+		rr := vs.NewRand(seed, uint64(7900000+round))
+		nt := 2 + rr.Intn(2)
+		if nt > len(reg.Accts) {
+			nt = len(reg.Accts)
+		}
+		perm := rr.Perm(len(reg.Accts))
+		var jobs []*job
+		for k := 0; k < nt; k++ {
+			a := reg.Accts[perm[k]]
+			if a.Certs["valid"] == nil {
+				continue
+			}
+			rt := routes[rr.Intn(len(routes))]
+			if rr.Chance(2, 3) {
+				rt = routes[2] // the streams are the long-lived handlers
+			}
+			for w := 0; w < 2+rr.Intn(4); w++ {
+				j := &job{acct: a, route: rt, d: 1, g: 1, o: 1}
+				if rr.Chance(1, 3) {
+					j.d, j.g, j.o = uint64(1+rr.Intn(3)), uint32(1+rr.Intn(2)), uint32(1+rr.Intn(2))
+				}
+				jobs = append(jobs, j)
+			}
+		}
+		var wg sync.WaitGroup
+		for _, i := range rr.Perm(len(jobs)) {
+			j := jobs[i]
+			wg.Add(1)
+			delay := time.Duration(rr.Intn(300)) * time.Microsecond
+			go func() {
+				defer wg.Done()
+				time.Sleep(delay)
+				cc := j.acct.Certs["valid"]
+				j.obs = vC09Do(srv.addr, [][]byte{cc.DER}, cc.Key, vC09BaseTarget(j.route, j.d, j.g, j.o).Req())
+			}()
+		}
+		wg.Wait()
+		_ = srv.rec.drain()
+		for _, j := range jobs {
+			res.Eval(1)
+			if !(j.obs.Status == 101 || (j.obs.Status >= 200 && j.obs.Status < 300)) {
+				res.Count("multitenant_not_served", 1)
+				continue
+			}
+			tags := re.FindAllStringSubmatch(j.obs.Body, -1)
+			if len(tags) == 0 {
+				res.Count("multitenant_served_without_tag", 1)
+				continue
+			}
+			res.Count("multitenant_responses_checked", 1)
+			if j.route.WS {
+				res.Count("multitenant_streams_checked", 1)
+			}
+			want := fmt.Sprintf("%s/%d/%d/%d/%s", j.acct.Bech, j.d, j.g, j.o, reg.Provider.String())
+			for _, m := range tags {
+				got := strings.Join(m[1:], "/")
+				if got != want {
+					cc := j.acct.Certs["valid"]
+					c := &vC09Case{Seed: seed, Class: "genuine", Route: j.route.Name, Hostile: "concurrent-with-other-tenants", Request: vC09BaseTarget(j.route, j.d, j.g, j.o).Req(), chain: [][]byte{cc.DER}, key: cc.Key}
+					_ = c.seal()
+					res.AddViolation("scoped-to-authenticated-tenant", "C09/scoped-to-authenticated-tenant/concurrent-tenants/"+j.route.Name,
+						fmt.Sprintf("client authenticated as %s asked %q and was answered from lease %s (expected %s) while other tenants were using the gateway", j.acct.Bech, c.Request.Line(), got, want), c)
+					break
+				}
+			}
+		}
+		res.Distinct(fmt.Sprintf("multitenant|%d tenants|%d requests", nt, len(jobs)))
+	}
+	res.Count("multitenant_rounds", rounds)
 }
